@@ -290,9 +290,28 @@ MODULE_FN_SPECS = {"_get_duration": spec_get_duration, "_set_duration": spec_set
 # ---------------------------------------------------------------------------------------------------
 # wiring into an engine
 
+def spec_encode(eng, st, args, kw):
+    """Caller-side contract of the static method Component._encode(name, value) for an already typed value and no parameters
+    (the call shape of the property setters): the value itself; for TRIGGER a date-time value is tagged VALUE=DATE-TIME.
+    props/C02.py proves the real body against the full contract."""
+    name, value = args[1], args[2]
+    if len(args) > 3 or kw:
+        raise E.Undecided("_encode with parameters: use the C02 contract")
+    nz = z3.simplify(eng.unbox_known(name, st).z)
+    if not z3.is_string_value(nz):
+        raise E.Undecided("_encode with a symbolic name")
+    if nz.as_string().upper() != "TRIGGER":
+        return [(st, value)]
+    hook = eng.contracts.get("encode:TRIGGER")
+    if hook is None:
+        raise E.Undecided("_encode('TRIGGER', ...) needs the C02 contract")
+    return hook(eng, st, args, kw)
+
+
 def install(eng: E.Engine, classes: Classes, inline_props=True):
     """member hook + contracts so that attribute access on a Component view resolves descriptors."""
     caseless.register(eng.contracts)
+    eng.contracts["Component._encode"] = spec_encode
     eng.contracts["new:vDDDTypes"] = new_vDDDTypes
     eng.contracts["new:vDuration"] = new_vDuration
     eng.contracts["new:vUTCOffset"] = new_vUTCOffset
